@@ -108,4 +108,10 @@ theorem collectAux_sorted (sv : Nat → Bool) (now : Int) (i : Nat) (l : List (T
         · omega
         · have := ih2 x hx; omega
 
+theorem map_zip_map_right {α β γ : Type} (l : List α) (f : α → β) (g : α × β → γ) :
+    (l.zip (l.map f)).map g = l.map (fun a => g (a, f a)) := by
+  induction l with
+  | nil => rfl
+  | cons a l ih => simp [ih]
+
 end TrustVerif.C06
